@@ -58,10 +58,15 @@ Ret == /\ Ev.ev = "ret" /\ l' = l + 1
        /\ st[Ev.t].ph = "lin" /\ st[Ev.t].op = Ev.op /\ st[Ev.t].res = Ev.ret
        /\ st' = [st EXCEPT ![Ev.t] = Idle] /\ UNCHANGED m
 Quiescent == \A t \in T : st[t].ph = "idle"
-\* final observation with nothing in flight: the whole content
-Final == /\ Ev.ev = "probedrain" /\ l' = l + 1 /\ Quiescent
-         /\ Ev.pairs = Pairs(m) /\ Ev.len = Cardinality(Dom(m)) /\ UNCHANGED <<m, st>>
-Next == \/ l <= Len(Trace) /\ (Reset \/ Inv \/ Ret \/ Final)
+\* an observer reads the whole content (Range, then Len) while every other goroutine stands still outside its
+\* critical section: a snapshot of the map at that instant (calls still in flight have either taken effect or not:
+\* TLC chooses with Lin steps before this event).  `skipped`: the observer could not look (a writer was inside).
+Final == /\ Ev.ev = "probedrain" /\ l' = l + 1
+         /\ \/ "skipped" \in DOMAIN Ev
+            \/ "pairs" \in DOMAIN Ev /\ Ev.pairs = Pairs(m) /\ Ev.len = Cardinality(Dom(m))
+         /\ UNCHANGED <<m, st>>
+Probe == Ev.ev = "probe" /\ l' = l + 1 /\ UNCHANGED <<m, st>>
+Next == \/ l <= Len(Trace) /\ (Reset \/ Inv \/ Ret \/ Final \/ Probe)
         \/ \E t \in T : Lin(t)
 vars == <<m, st, l>>
 Spec == Init /\ [][Next]_vars
